@@ -683,11 +683,18 @@ func closeToken(idx, count, cpos, match int, pos map[int]int, line []rune, split
 
 // newlines gives the indexes of all newline characters in the line.
 func (l *Line) newlines() [][]int {
-	line := string(*l)
-	line += string(inputrc.Newline)
-	nl := regexp.MustCompile(string(inputrc.Newline))
+	// Positions are character (rune) positions in the line, like the cursor one,
+	// not byte offsets in its string: they differ with multibyte characters.
+	var indexes [][]int
 
-	return nl.FindAllStringIndex(line, -1)
+	for pos, char := range *l {
+		if char == inputrc.Newline {
+			indexes = append(indexes, []int{pos, pos + 1})
+		}
+	}
+
+	// As if the line ended with a newline.
+	return append(indexes, []int{len(*l), len(*l) + 1})
 }
 
 // returns bpos, epos ordered and true if either is valid.
